@@ -815,7 +815,10 @@ def run(replay=None):
         for i in range(0, len(oseqs), ochunk):
             d1 = rand_scalar(rng)
             z1 = rand_digest(rng)
-            objjobs.append({'t': 'obj', 'keys': {'1': h32(d1), '2': h32((d1 * 7 + 11) % N or 5)},
+            # the second key of every other chunk is the negation of the first (same x coordinate, other y: the nearest
+            # wrong key); what each signature is worth under each key is established by the reference verifier either way
+            d2 = (N - d1) if (i // ochunk) % 2 else ((d1 * 7 + 11) % N or 5)
+            objjobs.append({'t': 'obj', 'keys': {'1': h32(d1), '2': h32(d2)},
                             'zs': {'1': h32(z1), '2': h32((z1 ^ (1 << rng.randrange(256))))}, 'seqs': oseqs[i:i + ochunk]})
         envs = []
         for g in gout[len(bases) + len(muts):-1]:
